@@ -400,7 +400,7 @@ func RunC11(c *hlib.Ctx) {
 		s.writerRandom(24, 25, 3, 3, 3, true, 2)
 	}
 	blackBox(c, "C11")
-	s.finish(ruleCommon + "; Close after the last Write = the consumer runs TryNext until it fails (ring level) or Writer.Close with the closer gated on the last Write (writer level); C11 monitors at Close: delivered + reported >= returned, equality when no 'Diode set collision' was logged, nothing dropped when fewer than size positions were outstanding at every fetch-add, wrapped writer closed; failures classified structurally (abandoned position after a failed CAS at the final read index = diode-hole-at-close; lost message overwritten by a first-lap CAS of smaller seq = diode-firstlap-overwrite; anything else under its own key); plus Logger.Fatal through a diode.Writer in a re-executed process")
+	s.finish(ruleCommon + "; Close after the last Write = the consumer runs TryNext until it fails (ring level) or Writer.Close with the closer gated on the last Write (writer level); C11 monitors at Close: delivered + reported >= returned, equality when no 'Diode set collision' was logged, nothing dropped when fewer than size positions were outstanding at every fetch-add, wrapped writer closed; failures classified structurally (abandoned position after a failed CAS at the final read index = diode-hole-at-close; lost message overwritten by a first-lap CAS of smaller seq = diode-firstlap-overwrite; anything else under its own key); plus Logger.Fatal through a diode.Writer in re-executed processes: five destination / timing modes (waiter, poller, slow destination, Fatal while a shutdown Close is draining, the same polled) x eleven ways of finishing the fatal event (Msg / Msgf / MsgFunc with a text, long text, a blank, the empty message; Send; Err(e).Send), twelve ways of obtaining the logger (derived, from a context, the global logger, behind the Close-forwarding level writers), a Fatal that is itself filtered out after a backlog, and WithLevel(FatalLevel) followed by an explicit Close")
 }
 
 // ------------------------------------------------------------------ C12
